@@ -175,6 +175,8 @@ WRITE_PATHS = {
     'clone_emode': r'emode_clone::lending_pool_clone_emode$',
     'configure_bank_interest_only': r'configure_bank_lite::lending_pool_configure_bank_interest_only$',
     'configure_bank_limits_only': r'configure_bank_lite::lending_pool_configure_bank_limits_only$',
+    'propagate_staked_settings': r'propagate_staked_settings::propagate_staked_settings$',
+    'migrate_curve': r'migrate_curve::migrate_curve$',
 }
 BANK_CFG = STRUCTS['Bank'].index('config'); BANK_EMODE = STRUCTS['Bank'].index('emode')
 CFG_IRC = STRUCTS['BankConfig'].index('interest_rate_config')
